@@ -1437,7 +1437,7 @@ class Kconfig(object):
                         continue
                     else:
                         if sym.present_in_current_sdkconfig or (
-                            sym.choice and sym.choice.present_in_current_sdkconfig and val != "n"
+                            sym.choice and sym.orig_type == BOOL and sym.choice.present_in_current_sdkconfig and val != "n"
                         ):
                             if sym.choice:
                                 self.report.add_record(
